@@ -397,7 +397,8 @@ def run_property(prop_id, tier, seed, only=None):
                 r = json.load(f)
             sub = byname.get(r['subcheck'])
             if sub is None:
-                problems.append(f'regress/{prop_id}/{fn}: unknown subcheck {r["subcheck"]}')
+                if not getattr(mod, 'PARTIAL', False):      # a module imported in part (development aid) skips foreign cases
+                    problems.append(f'regress/{prop_id}/{fn}: unknown subcheck {r["subcheck"]}')
                 continue
             n_reg += 1
             try:
